@@ -4,7 +4,7 @@ from .. import clock as VC
 from .. import boot
 from ..lab_stack import StackLab, lib as lablib, Runaway
 from .. import lab_device as LD
-from ..ref import apci as RA, npci as RN, asn1 as R1
+from ..ref import apci as RA, npci as RN, asn1 as R1, bvlc as RB
 
 ID = "C10"
 LEVEL = "exploration"
@@ -25,7 +25,7 @@ ASSUMPTIONS = [
     "frames carrying a DADR (routed / broadcast destinations) are not judged: a one-port device is not their addressee",
     "exceptions swallowed by the event loop name the root cause in the signature; they are not violations by themselves",
     "COV lifetime timers legitimately created by (mutated) SubscribeCOV requests are not residue; only transaction state machines and their timers are",
-    "link-layer (BVLL) garbage is exercised in C13's B/IP lab; here frames enter at the network layer",
+    "link-layer runs: the same device on BACnet/IP (BIPSimple, BIPBBMD, BIPForeign); only a request inside a correctly framed Original-Unicast-NPDU sent to the device's own address is owed a reply",
 ]
 
 _seeds = None
@@ -254,11 +254,197 @@ def run_history(steps):
     return fails[:3], stats
 
 
+
+# ---- the same device on BACnet/IP: datagrams enter below the BVLL layer ----------------------------------------------------------
+
+DEV_IP = "192.168.1.2"
+ATT_IP = "192.168.1.9"
+
+
+class LinkLab(object):
+    """DeviceApp + ASAP + SMAP + NSAP/NSE + BIPSimple|BIPBBMD|BIPForeign + AnnexJCodec + multiplexer shim on a virtual IP subnet;
+    the attacker is a bare IP node that sends arbitrary UDP payloads and records every datagram it receives"""
+
+    def __init__(self, kind):
+        from .c13 import lib as biplib
+        BL = biplib()
+        L = lablib()
+        VC.reset(0.0)
+        boot.swallowed.take()
+        DeviceApp, ClientApp = LD.device_classes()
+        self.datagrams = []
+        self.net = BL.vlan.IPNetwork("ip")
+        addr = BL.Address("%s/24" % DEV_IP)
+        self.device = L.LocalDeviceObject(objectName="dev2", objectIdentifier=("device", 2), maxApduLengthAccepted=1024, segmentationSupported="segmentedBoth",
+                                          maxSegmentsAccepted=16, vendorIdentifier=999, numberOfApduRetries=1, apduTimeout=1000, apduSegmentTimeout=500)
+        self.app = DeviceApp(self.device)
+        self.app.stack = self
+        self.asap = L.appservice.ApplicationServiceAccessPoint()
+        self.smap = L.appservice.StateMachineAccessPoint(self.device)
+        self.smap.deviceInfoCache = self.app.deviceInfoCache
+        self.smap.applicationTimeout = 3000
+        self.nsap = L.netservice.NetworkServiceAccessPoint()
+        self.nse = L.NSE()
+        L.bind(self.nse, self.nsap)
+        L.bind(self.app, self.asap, self.smap, self.nsap)
+        if kind == "simple":
+            self.bip = BL.BS.BIPSimple()
+        elif kind == "bbmd":
+            self.bip = BL.BS.BIPBBMD(addr)
+            self.bip.add_peer(addr)
+        else:
+            self.bip = BL.BS.BIPForeign()
+            self.bip.register(BL.Address(ATT_IP), 30)       # its registrar is the attacker: acknowledged only if the garbage says so
+        self.mux = BL.Mux(addr, self.net, self)
+        L.bind(self.bip, BL.BS.AnnexJCodec(), self.mux)
+        self.nsap.bind(self.bip)
+        LD.populate(self)
+        self.att_addr = BL.Address("%s/24" % ATT_IP)
+        seen = self.seen = []
+
+        class Att(BL.Client):
+            def confirmation(self_, pdu):
+                seen.append((VC.clk.now, pdu.pduSource, pdu.pduDestination, bytes(pdu.pduData)))
+        self.att = Att()
+        self.att_node = BL.vlan.IPNode(self.att_addr, self.net)
+        L.bind(self.att, self.att_node)
+        self.BL = BL
+
+    def inject(self, octets, broadcast=False):
+        BL = self.BL
+        dst = (DEV_IP, 47808) if not broadcast else self.att_addr.addrBroadcastTuple
+        self.att.request(BL.PDU(bytes(octets), source=self.att_addr.addrTuple, destination=dst))
+
+    def timers(self):
+        return [t for (when, n, t) in VC.tm.tasks if getattr(t, "ssmSAP", None) is self.smap]
+
+
+def link_frame(npdu, fn=10):
+    return RB.encode(fn, dict(data=npdu))
+
+
+def run_link_history(kind, steps):
+    """steps: ["inject", [hex | hex+"*" (sent to the subnet broadcast address), ...]] | ["adv", dt]"""
+    lab = LinkLab(kind)
+    VC.settle()
+    owed, used, same_id = [], set(), {}
+    stats = dict(injected=0, well_framed=0, mixed_instants=0, rejected_deeper=0, bvll_valid=0, bvll_refused=0)
+    fails = []
+    for st_ in steps:
+        if st_[0] == "inject":
+            kinds = set()
+            for hx in st_[1]:
+                bc = hx.endswith("*")
+                dg = bytes.fromhex(hx.rstrip("*"))
+                c = None
+                try:
+                    fn, p = RB.decode(dg)
+                    stats["bvll_valid"] += 1
+                    if fn in (4, 9, 10, 11):
+                        c = classify(p["data"])
+                        if c is not None:
+                            # any carrier may bring a request up to the application; only Original-Unicast to the device is owed a reply
+                            same_id[c["invoke"]] = same_id.get(c["invoke"], 0) + 1
+                        if fn != 10 or bc:
+                            c = None
+                except RB.Reject:
+                    stats["bvll_refused"] += 1
+                if c is not None and (c["invoke"] == PROBE_INVOKE or c["sadr"] is not None or c["invoke"] in used):
+                    c = None
+                    kinds.add("other")
+                elif c is not None:
+                    used.add(c["invoke"])
+                    c["idx"] = len(lab.seen)
+                    c["frame"] = hx
+                    owed.append(c)
+                    stats["well_framed"] += 1
+                    kinds.add("wf")
+                else:
+                    kinds.add("garbage")
+                stats["injected"] += 1
+                lab.inject(dg, bc)
+            if "wf" in kinds and "garbage" in kinds:
+                stats["mixed_instants"] += 1
+            VC.settle()
+        else:
+            t = VC.clk.now + float(st_[1])
+            VC.pump(t, 2000000, stay=True)
+            VC.clk.now = max(VC.clk.now, t)
+    VC.pump(VC.clk.now + 200.0, 2000000, stay=True)
+    sw = [r for r in boot.swallowed.take() if r[0]]
+    exc = ":%s@%s" % (sw[0][0], sw[0][1]) if sw else ""
+    res = dict(server_tr=len(lab.smap.serverTransactions), client_tr=len(lab.smap.clientTransactions), timers=len(lab.timers()))
+    probe_idx = len(lab.seen)
+    lab.inject(link_frame(probe_frame()))
+    VC.pump(VC.clk.now + 5.0, 2000000, stay=True)
+    replies = {}
+    for pos, (t, src, dst, data) in enumerate(lab.seen):
+        if src != (DEV_IP, 47808):
+            continue
+        try:
+            fn, p = RB.decode(data)
+        except RB.Reject as err:
+            fails.append(("link:device-sent-invalid-bvll:%s" % err, data[:24].hex()))
+            continue
+        if fn != 10 or dst != (ATT_IP, 47808):
+            continue
+        try:
+            n = RN.decode(p["data"])
+            if n["msg"] is not None:
+                continue
+            a = RA.decode(n["data"])
+        except (RN.Reject, RA.Reject):
+            fails.append(("link:device-sent-undecodable-frame", data[:24].hex()))
+            continue
+        a["idx"] = pos
+        if a["type"] in (2, 3, 4, 5, 6, 7) and "invoke" in a and n["dadr"] is None:
+            replies.setdefault(a["invoke"], []).append(a)
+    for c in owed:
+        rs = [r for r in replies.get(c["invoke"], []) if r["idx"] >= c["idx"]]
+        final = [r for r in rs if r["type"] in (2, 3, 5, 6, 7) and not (r["type"] == 3 and r.get("seg") and r["seq"] != 0)]
+        segacks = [r for r in rs if r["type"] == 4]
+        distinct = []
+        for r in final:
+            key = (r["type"], r.get("service"), r.get("reason"), r.get("seg"), bytes(r.get("data", b"")))
+            if key not in distinct:
+                distinct.append(key)
+        what = "service %d, body %s" % (c["service"], c["body"][:20].hex())
+        if c["seg"]:
+            if not segacks and not final:
+                fails.append(("link:silence:segmented-request%s" % exc, "first segment of a segmented request (invoke %d, %s) in an Original-Unicast-NPDU got neither segment-ack nor abort" % (c["invoke"], what)))
+            continue
+        if not final:
+            fails.append(("link:silence%s" % exc, "%s device: well-framed request (invoke %d, %s) in an Original-Unicast-NPDU got no reply; datagram %s; swallowed %r" % (kind, c["invoke"], what, c["frame"][:80], sw[:2])))
+        elif len(distinct) > same_id.get(c["invoke"], 1):
+            # (several well-framed requests carrying one invoke ID - a mutation can produce that - may each be answered)
+            fails.append(("link:%d-replies%s" % (len(distinct), exc), "request (invoke %d, %s) got replies %r" % (c["invoke"], what, [(d[0], d[1], d[2]) for d in distinct])))
+        else:
+            mine = [r for r in final if r["type"] in (6, 7) or r["service"] == c["service"]]
+            r = mine[0] if mine and same_id.get(c["invoke"], 1) > 1 else final[0]
+            if r["type"] in (2, 3, 5) and r["service"] != c["service"]:
+                fails.append(("link:reply-for-other-service", "request for service %d answered with %s for service %d" % (c["service"], RA.NAMES[r["type"]], r["service"])))
+            if r["type"] in (6, 7):
+                stats["rejected_deeper"] += 1
+        if fails:
+            break
+    if res["server_tr"] or res["client_tr"] or res["timers"]:
+        fails.append(("link:residue%s" % exc, "at quiescence the %s device holds %d server transaction(s), %d client transaction(s), %d transaction timer(s); swallowed %r"
+                      % (kind, res["server_tr"], res["client_tr"], res["timers"], sw[:2])))
+    pr = [r for r in replies.get(PROBE_INVOKE, []) if r["type"] in (2, 3, 5, 6, 7) and r["idx"] >= probe_idx]
+    if not pr:
+        fails.append(("link:dead-after%s" % exc, "%s device: the final valid ReadProperty was not answered; swallowed %r" % (kind, sw[:2])))
+    elif pr[0]["type"] != 3 or bytes(pr[0]["data"]) != probe_expected_body():
+        fails.append(("link:wrong-after%s" % exc, "the final valid ReadProperty was answered with %s %s" % (RA.NAMES[pr[0]["type"]], bytes(pr[0]["data"]).hex())))
+    return fails[:3], stats
+
+
 def judge(case):
     try:
         with watchdog(120):
             steps = case["steps"]
-            if case.get("expect"):
+            if case.get("k") == "link":
+                fails, stats = run_link_history(case["dev"], steps)
+            elif case.get("expect"):
                 # an unmutated seed: attach the expectation to the first frame
                 fails, stats = run_history_expect(steps, case["expect"], case.get("name"))
             else:
@@ -269,6 +455,10 @@ def judge(case):
     labels = ["wf:%d" % min(stats["well_framed"], 3)]
     if stats["mixed_instants"]:
         labels.append("mixed-instant")
+    if case.get("k") == "link":
+        labels.append("link:" + case["dev"])
+        if stats["bvll_refused"]:
+            labels.append("link:bad-bvll-header")
     return Verdict(fails, nt, labels)
 
 
@@ -311,6 +501,10 @@ def plan(tier, seed):
         specs.append(dict(name="bodies-%d" % i, kind="bodies", n=4000 if tier == "quick" else 40000))
     for i in range(6):
         specs.append(dict(name="histories-%d" % i, kind="hist", n=1500 if tier == "quick" else 15000))
+    for dev in ("simple", "bbmd", "foreign"):
+        specs.append(dict(name="link-mutate-%s" % dev, kind="link-mutate", dev=dev, tier=tier, part="octets"))
+        specs.append(dict(name="link-functions-%s" % dev, kind="link-mutate", dev=dev, tier=tier, part="functions"))
+        specs.append(dict(name="link-histories-%s" % dev, kind="link-hist", dev=dev, n=1200 if tier == "quick" else 12000))
     return specs
 
 
@@ -411,3 +605,78 @@ def run(spec, ctx):
                          st.tuples(st.just("adv"), st.sampled_from([0.0, 0.1, 0.5, 1.0, 2.1, 6.0])).map(list))
         strat = st.lists(step, min_size=1, max_size=8).map(lambda s: dict(k="h", steps=s))
         ctx.for_all(strat, spec["n"])
+    elif kind == "link-mutate":
+        dev = spec["dev"]
+        ok = link_frame(seed_frame(1, invoke=31))                    # a valid ReadProperty that must be answered whatever stands next to it
+        n_ = 0
+        for si in (((0, 4) if spec["tier"] == "quick" else range(10)) if spec["part"] == "octets" else ()):
+            frame = link_frame(seed_frame(si, invoke=9))
+            muts = []
+            for pos in range(min(len(frame), 12)):
+                for v in (range(256) if pos < 6 or spec["tier"] != "quick" else (0x00, 0x01, 0x04, 0x08, 0x20, 0x24, 0x7F, 0x80, 0xFF, 0x0A, 0x81)):
+                    if frame[pos] != v:
+                        muts.append(frame[:pos] + bytes([v]) + frame[pos + 1:])
+            for pos in range(12, len(frame)):
+                for v in (0x00, 0x0F, 0x3E, 0x7F, 0x80, 0xFF, (frame[pos] + 1) & 0xFF, frame[pos] ^ 0x08):
+                    if frame[pos] != v:
+                        muts.append(frame[:pos] + bytes([v]) + frame[pos + 1:])
+            for cut in range(len(frame)):
+                muts.append(frame[:cut])
+            for pos in range(len(frame) + 1):
+                for v in (0x00, 0x81, 0x0A, 0xFF):
+                    muts.append(frame[:pos] + bytes([v]) + frame[pos:])
+            for m in muts:
+                # alone, in front of a valid request in the same instant, and to the broadcast address
+                ctx.check(dict(k="link", dev=dev, steps=[["inject", [m.hex(), ok.hex()]]]))
+                n_ += 1
+            for m in muts[::7]:
+                ctx.check(dict(k="link", dev=dev, steps=[["inject", [ok.hex(), m.hex() + "*"]]]))
+        # every function code x {valid request, garbage, empty} payload, with a right and a wrong length field
+        for fn in (range(256) if spec["part"] == "functions" else ()):
+            for payload in (seed_frame(0, invoke=10), b"", b"\x01\x00", bytes(range(6)) + seed_frame(0, invoke=10), b"\x00\x1e", bytes(10), bytes(20)):
+                f = bytes([0x81, fn]) + (4 + len(payload)).to_bytes(2, "big") + payload
+                ctx.check(dict(k="link", dev=dev, steps=[["inject", [f.hex(), ok.hex()]]]))
+            f = bytes([0x81, fn, 0x00, 0x04])
+            ctx.check(dict(k="link", dev=dev, steps=[["inject", [f.hex() + "*", ok.hex()]]]))
+        for ln in (list(range(0, 40)) + [0xFFFF, 0x8000, 0x0100] if spec["part"] == "functions" else ()):
+            frame = bytearray(link_frame(seed_frame(0, invoke=9)))
+            frame[2:4] = ln.to_bytes(2, "big")
+            ctx.check(dict(k="link", dev=dev, steps=[["inject", [bytes(frame).hex(), ok.hex()]]]))
+        ctx.mark_exhaustive("link layer, %s device" % dev + (": all 256 values at each of the first 6 (thorough: 12) octets, every truncation, single insertions, every function code 0..255 x 7 payloads, length fields 0..39 of valid Original-Unicast frames, each next to a valid request in the same instant"))
+    elif kind == "link-hist":
+        from hypothesis import strategies as st
+        dev = spec["dev"]
+        vf = st.tuples(st.integers(0, 9), st.integers(0, 40)).map(lambda t: link_frame(seed_frame(t[0], invoke=t[1])).hex())
+        raw = st.one_of(st.binary(max_size=24), st.binary(max_size=24).map(lambda b: b"\x81" + b))
+        addr6 = st.one_of(st.sampled_from([bytes([192, 168, 1, 9, 0xBA, 0xC0]), bytes([192, 168, 1, 2, 0xBA, 0xC0]), bytes([192, 168, 1, 255, 0xBA, 0xC0]), bytes(6), b"\xff" * 6]), st.binary(min_size=6, max_size=6))
+        u16 = st.one_of(st.sampled_from([0, 1, 5, 30, 65535]), st.integers(0, 65535))
+        npdu = st.one_of(st.tuples(st.integers(0, 9), st.integers(41, 60)).map(lambda t: seed_frame(t[0], invoke=t[1])), st.binary(max_size=12),
+                         st.just(RN.encode(dict(msg=None, dadr=("gb", None, b""), sadr=None, er=False, prio=0, hop=255, data=bytes([0x10, 0x08])))))      # a global Who-Is
+        msg = st.one_of(
+            u16.map(lambda c: RB.encode(0, dict(code=c))),
+            st.lists(st.tuples(addr6, st.integers(0, 0xFFFFFFFF)), max_size=3).flatmap(lambda t: st.sampled_from([1, 3]).map(lambda fn: RB.encode(fn, dict(bdt=t)))),
+            st.sampled_from([2, 6]).map(lambda fn: RB.encode(fn, dict())),
+            st.tuples(addr6, npdu).map(lambda t: RB.encode(4, dict(addr=t[0], data=t[1]))),
+            u16.map(lambda c: RB.encode(5, dict(ttl=c))),
+            st.lists(st.tuples(addr6, u16, u16), max_size=3).map(lambda t: RB.encode(7, dict(fdt=t))),
+            addr6.map(lambda a: RB.encode(8, dict(addr=a))),
+            st.tuples(st.sampled_from([9, 10, 11]), npdu).map(lambda t: RB.encode(t[0], dict(data=t[1]))))
+
+        def mutate(t):
+            f = bytearray(t[0])
+            if not f:
+                return bytes(f)
+            if t[1] == 0:
+                f[t[2] % len(f)] = t[3]
+            elif t[1] == 1:
+                del f[t[2] % len(f):]
+            elif t[1] == 2:
+                f.insert(t[2] % (len(f) + 1), t[3])
+            else:
+                f += bytes([t[3]]) * (1 + t[2] % 3)
+            return bytes(f)
+        mutated = st.tuples(msg, st.integers(0, 3), st.integers(0, 60), st.integers(0, 255)).map(mutate)
+        dgram = st.one_of(raw, msg, msg, mutated, mutated).flatmap(lambda b: st.sampled_from(["", "", "*"]).map(lambda sfx: bytes(b).hex() + sfx))
+        step = st.one_of(st.tuples(st.just("inject"), st.lists(st.one_of(vf, dgram, dgram), min_size=1, max_size=5)).map(list),
+                         st.tuples(st.just("adv"), st.sampled_from([0.0, 0.5, 1.0, 2.1, 6.0, 31.0, 61.0])).map(list))
+        ctx.for_all(st.lists(step, min_size=1, max_size=8).map(lambda s_: dict(k="link", dev=dev, steps=s_)), spec["n"])
